@@ -253,10 +253,9 @@ IsSimilarity(st) == \A a, b \in 1..Len(st.lin) : Dot(st.lin[a], st.lin[b]) = (IF
 \* real length factor^2 = mm S0^2 / S1^2  as an Exact rational
 LenFactor2(st) == RNorm(MM(st) * st.S0 * st.S0, st.c.S * st.c.S)
 
-\* inverse generators (for the group-law check); trans without wrap, image, relabel, swap, axes
+\* inverse generators (for the group-law check): translation without re-wrapping, swap, axis permutation
 Inverse(g, c) ==
   CASE g.kind = "trans"   -> [g EXCEPT !.t = VNeg(g.t)]
-    [] g.kind = "relabel" -> g        \* see InverseRelabel
     [] g.kind = "swap"    -> g
     [] g.kind = "axes"    -> [g EXCEPT !.p = InvPerm(g.p)]
     [] OTHER              -> g
@@ -481,8 +480,6 @@ ActionWellFormed(c, st) ==
   /\ IsSimilarity(st)
   /\ st.rotated => AllZero(c.ppp)
   /\ st.c.ppp = PermVec(st.ax, c.ppp)
-  /\ (st.wrapped /\ ~st.boxfixed /\ ~st.rotated) =>      \* after a re-wrap (and only lattice shifts since) ...
-       TRUE
 
 (***************************************************************************)
 (* Which observable is expected to respect which word, and how.            *)
